@@ -87,40 +87,43 @@ Proof.
     repeat (progress (simpl; str_simpl)). reflexivity.
 Qed.
 
-(* --- the product branch picks registered variables of one enumerated combination ------ *)
+(* --- the product branch: one factor per block, chosen block by block ------------------- *)
 
-Lemma scan_products_spec ad : forall ps last e,
-  scan_products ad ps last = Some e ->
-  (exists p, In p ps /\ subsetS (flat_map snd p) ad = true /\
-             e = map (fun v : varinfo => {| f_name := fst v; f_interp := false |}) p) \/
-  (exists p, In p ps /\ e = map (fun v : varinfo => {| f_name := fst v; f_interp := true |}) p) \/
-  last = Some e.
+Lemma choose_block_spec ad l f :
+  choose_block ad l = Some f ->
+  (f_interp f = false /\ exists v, In v l /\ fst v = f_name f /\ fits ad v = true) \/
+  (f_interp f = true /\ (forall v, In v l -> fits ad v = false) /\ exists v, In v l /\ fst v = f_name f).
 Proof.
-  induction ps as [|p ps IH]; intros last e H; simpl in H.
-  - right. right. exact H.
-  - destruct (subsetS (flat_map snd p) ad) eqn:F.
-    + inversion H; subst. left. exists p. split; [left; reflexivity|]. split; [exact F|reflexivity].
-    + destruct (IH _ _ H) as [(q & Hq & Fq & Eq)|[(q & Hq & Eq)|Hl]].
-      * left. exists q. split; [right; exact Hq|]. auto.
-      * right. left. exists q. split; [right; exact Hq|exact Eq].
-      * inversion Hl; subst. right. left. exists p. split; [left; reflexivity|reflexivity].
+  unfold choose_block. destruct (find (fits ad) l) as [v|] eqn:F.
+  - intros H. inversion H; subst. left. split; [reflexivity|]. apply find_some in F.
+    exists v. split; [apply F|]. split; [reflexivity | apply F].
+  - destruct (rev l) as [|v r] eqn:R; [discriminate|]. intros H. inversion H; subst. right.
+    split; [reflexivity|]. split.
+    + intros w Hw. apply (find_none _ _ F). exact Hw.
+    + exists v. split; [|reflexivity]. apply in_rev. rewrite R. left. reflexivity.
+Qed.
+
+Lemma choose_blocks_spec ad : forall ls e, choose_blocks ad ls = Some e ->
+  Forall2 (fun f l => choose_block ad l = Some f) e ls.
+Proof.
+  induction ls as [|l ls IH]; intros e H; simpl in H.
+  - inversion H; subst. constructor.
+  - destruct (choose_block ad l) as [f|] eqn:C; [|discriminate].
+    destruct (choose_blocks ad ls) as [fs|]; [|discriminate]. inversion H; subst.
+    constructor; [exact C | apply IH; reflexivity].
 Qed.
 
 Lemma scan_combinations_spec reg ad : forall cs e,
   scan_combinations reg ad cs = Some e ->
-  exists c ls p flag, In c cs /\ all_lookup reg c = Some ls /\ In p (products ls) /\
-    e = map (fun v : varinfo => {| f_name := fst v; f_interp := flag |}) p /\
-    (flag = false -> subsetS (flat_map snd p) ad = true).
+  exists c ls, In c cs /\ all_lookup reg c = Some ls /\ choose_blocks ad ls = Some e /\ e <> [].
 Proof.
   induction cs as [|c cs IH]; intros e H; simpl in H; [discriminate|].
   destruct (all_lookup reg c) as [ls|] eqn:L.
-  - destruct (scan_products ad (products ls) None) as [e'|] eqn:S.
-    + inversion H; subst. destruct (scan_products_spec ad _ _ _ S) as [(p & Hp & Fp & Ep)|[(p & Hp & Ep)|Hn]].
-      * exists c, ls, p, false. repeat split; auto. left; reflexivity.
-      * exists c, ls, p, true. repeat split; auto; [left; reflexivity|discriminate].
-      * discriminate.
-    + destruct (IH e H) as (c' & ls' & p & fl & Hc & R). exists c', ls', p, fl. split; [right; exact Hc|exact R].
-  - destruct (IH e H) as (c' & ls' & p & fl & Hc & R). exists c', ls', p, fl. split; [right; exact Hc|exact R].
+  - destruct (choose_blocks ad ls) as [[|f fs]|] eqn:S.
+    + destruct (IH e H) as (c' & ls' & Hc & R). exists c', ls'. split; [right; exact Hc | exact R].
+    + inversion H; subst. exists c, ls. split; [left; reflexivity|]. split; [exact L|]. split; [exact S | discriminate].
+    + destruct (IH e H) as (c' & ls' & Hc & R). exists c', ls'. split; [right; exact Hc | exact R].
+  - destruct (IH e H) as (c' & ls' & Hc & R). exists c', ls'. split; [right; exact Hc | exact R].
 Qed.
 
 Lemma all_lookup_spec reg : forall c ls, all_lookup reg c = Some ls ->
@@ -142,20 +145,24 @@ Proof.
 Qed.
 
 (* C10, products: only when nothing is registered for exactly the requested set, the
-   metric is a product whose factors are variables registered for the blocks of one of
-   the enumerated combinations, block by block, either all taken as they are (and then
-   they fit the array together) or all flagged as interpolated *)
+   metric is a product with one factor per block of one of the enumerated combinations:
+   for each block, the variable registered at the array's position if there is one (taken
+   as it is), otherwise one of them (the last registered) flagged as interpolated *)
 Theorem get_metric_product axis_dims reg ad axes e :
   find_key axes reg = None ->
   get_metric axis_dims reg ad axes = Ok e ->
-  exists c ls p flag, In c (axis_combinations axes) /\
-    Forall2 (fun b l => find_key b reg = Some l) c ls /\ Forall2 (fun v l => In v l) p ls /\
-    e = map (fun v : varinfo => {| f_name := fst v; f_interp := flag |}) p /\
-    (flag = false -> subsetS (flat_map snd p) ad = true).
+  exists c ls, In c (axis_combinations axes) /\
+    Forall2 (fun b l => find_key b reg = Some l) c ls /\
+    Forall2 (fun f l =>
+               (f_interp f = false /\ exists v, In v l /\ fst v = f_name f /\ fits ad v = true) \/
+               (f_interp f = true /\ (forall v, In v l -> fits ad v = false) /\
+                exists v, In v l /\ fst v = f_name f)) e ls.
 Proof.
   intros Hk H. unfold get_metric in H.
   destruct (forM_ _ (dedup_s axes)) as [[]|]; [|discriminate]. cbn [bind] in H. rewrite Hk in H.
   destruct (scan_combinations reg ad (axis_combinations axes)) as [e'|] eqn:S; [|discriminate].
-  inversion H; subst. destruct (scan_combinations_spec reg ad _ _ S) as (c & ls & p & fl & Hc & L & Hp & E & F).
-  exists c, ls, p, fl. split; [exact Hc|]. split; [apply all_lookup_spec, L|]. split; [apply products_spec, Hp|]. auto.
+  inversion H; subst. destruct (scan_combinations_spec reg ad _ _ S) as (c & ls & Hc & L & Ch & _).
+  exists c, ls. split; [exact Hc|]. split; [apply all_lookup_spec, L|].
+  apply choose_blocks_spec in Ch. clear - Ch. induction Ch as [|f l fs ls' Hf _ IH]; constructor; [|exact IH].
+  apply choose_block_spec. exact Hf.
 Qed.
